@@ -44,6 +44,7 @@ def named(body, t):
         i = int(m.group(1))
         return "_<" + (body.f["locals"][i]["ty"] if i < len(body.f["locals"]) else "?") + ">"
     s = re.sub(r"_(\d+)", nm, s)
+    s = re.sub(r"\{closure@[^}]*\}", "{closure}", s)   # closure types carry file:line:col
     s = re.sub(r"'loc' \d+", "'loc'", s)
     return s
 
